@@ -184,7 +184,9 @@ fn one(rep: &mut Report, case: u64, rng: &mut Rng, small: bool) {
     let mut classes: Vec<&'static str> = vec![];
     // "" = the part has no Content-Type header at all (it is optional; RFC 7578 4.4): the file's media type is then empty, whatever earlier parts said
     let mime = |rng: &mut Rng| rng.pick(&["image/png", "text/plain", "application/octet-stream", "application/vnd.ms-excel; charset=utf-8", "image/svg+xml", "", ""]).to_string();
-    let fname = |rng: &mut Rng| rng.pick(&["a.png", "my file (1).txt", "狼.jpg", "x", "archive.tar.gz", "semi;colon.txt"]).to_string();
+    let fname = |rng: &mut Rng| rng.pick(&["a.png", "my file (1).txt", "狼.jpg", "x", "archive.tar.gz", "semi;colon.txt",
+        // what browsers really send: directory-like names ending in a backslash, inner backslashes, an escaped quote (%22), `=` and dashes
+        "C:\\fakepath\\", "C:\\Users\\me\\notes.txt", "back\\\\", "a=b.txt", "per%22cent.txt", "--x--"]).to_string();
     let mut content = |rng: &mut Rng, classes: &mut Vec<&'static str>| -> Vec<u8> { let (c, k) = gen_content(rng); classes.push(k); if small && c.len() > 200 { c[..200].to_vec() } else { c } };
     // what the shape is: fits the target or not
     let mut fits = true;
@@ -226,7 +228,8 @@ fn one(rep: &mut Report, case: u64, rng: &mut Rng, small: bool) {
                 parts.push(FormPart::Text { name: "note".into(), value: n });
             }
             if rng.chance(1, 8) {
-                parts.push(FormPart::File { name: "title2".into(), filename: "u.bin".into(), mime: mime(rng), content: b"unknown field".to_vec() });
+                // a control the target type does not know, under names a form may well use
+                parts.push(FormPart::File { name: rng.pick(&["title2", "dir\\", "x[]", "a b"]).to_string(), filename: "u.bin".into(), mime: mime(rng), content: b"unknown field".to_vec() });
             }
         }
         _ => {
